@@ -37,6 +37,8 @@ TOBJ    := $(patsubst $(REPO)/src/lib/%.c,$(T)/lib/%.o,$(LIBSRC))
 TCFLAGS := -O1 -g -fsanitize=thread $(DEFS) $(INC)
 TCXXFLAGS := -std=gnu++17 -O1 -g -fsanitize=thread $(DEFS) $(INC) -I. -Wno-deprecated-declarations
 
+EXTRA_LDFLAGS_C11 := -Wl,--wrap=write
+EXTRA_LDFLAGS_C12 := -Wl,--wrap=read,--wrap=write,--wrap=lseek,--wrap=ftruncate
 HDRS    := pbt/pbt.hpp $(wildcard ref/*.hpp) lib/zcklib.hpp $(wildcard gen/*.hpp) $(wildcard props/*.hpp)
 
 .PHONY: all header
